@@ -125,7 +125,7 @@ def main():
         fail = oracle_fail(case, iobs)
         if fail:
             failures.append((case, fail, iobs, mobs))
-        if mobs is not None and common.canon(mobs) != common.canon(iobs):
+        if mobs is not None and common.canon(common.comparable(mobs)) != common.canon(common.comparable(iobs)):
             disagreements.append((case, iobs, mobs))
         return fail
 
@@ -180,7 +180,7 @@ def main():
                 f = oracle_fail(c, i)
                 if f:
                     failures.append((c, f, i, m))
-                return common.canon(i) != common.canon(m)
+                return common.canon(common.comparable(i)) != common.canon(common.comparable(m))
             small = shrink_case(mod, drv, c0, still)
             i, m = run_case(mod, drv, small)
             disagreements[0] = (small, i, m)
